@@ -149,6 +149,7 @@ pub fn classify(e: &SchemeError) -> ErrKind {
             LogicError::InproperList(_) => ErrKind::Other("InproperList".into()),
             LogicError::InExactConversion(_) => ErrKind::Other("InExactConversion".into()),
             LogicError::UnexpectedExpression(_) => ErrKind::Other("UnexpectedExpression".into()),
+            LogicError::Extension(m) if m.starts_with("verif: evaluation fuel exhausted") => ErrKind::Other(NON_TERMINATION.into()),
             LogicError::Extension(_) => ErrKind::Other("Extension".into()),
         },
         ErrorData::Syntax(SyntaxError::MacroMissMatch(_, _)) => ErrKind::NoMatchingRule,
@@ -325,7 +326,13 @@ impl Interp {
     }
     pub fn eval(&mut self, text: &str) -> Outcome {
         let it = &mut self.it;
-        match guarded(|| it.eval(text.chars())) {
+        // hook H3: an evaluation that does not end within the budget becomes a reported error
+        // (ErrKind::Other(NON_TERMINATION)), which no reference expects, instead of a hang
+        ruschm::interpreter::verif_set_fuel(eval_fuel());
+        let r = guarded(|| it.eval(text.chars()));
+        // unlimited again: code that drives the interpreter directly must never run out
+        ruschm::interpreter::verif_set_fuel(u64::MAX);
+        match r {
             Ok(Ok(Some(v))) => Outcome::Val(obs_of(&v)),
             Ok(Ok(None)) => Outcome::Val(Obs::NoValue),
             Ok(Err(e)) => Outcome::Err(classify(&e), e.location),
@@ -335,7 +342,10 @@ impl Interp {
     /// eval returning the raw value (for identity probes)
     pub fn eval_raw(&mut self, text: &str) -> Result<Option<Value<f32>>, Outcome> {
         let it = &mut self.it;
-        match guarded(|| it.eval(text.chars())) {
+        ruschm::interpreter::verif_set_fuel(eval_fuel());
+        let r = guarded(|| it.eval(text.chars()));
+        ruschm::interpreter::verif_set_fuel(u64::MAX);
+        match r {
             Ok(Ok(v)) => Ok(v),
             Ok(Err(e)) => Err(Outcome::Err(classify(&e), e.location)),
             Err(p) => Err(Outcome::Panic(p)),
@@ -347,6 +357,19 @@ impl Interp {
         let o = self.eval(text);
         (o, take_ticks())
     }
+}
+
+pub const NON_TERMINATION: &str = "no result within the evaluation budget (non-termination)";
+
+thread_local! {
+    static EVAL_FUEL: std::cell::Cell<u64> = std::cell::Cell::new(5_000_000);
+}
+/// procedure applications allowed per evaluated text on this thread (hook H3)
+pub fn eval_fuel() -> u64 {
+    EVAL_FUEL.with(|f| f.get())
+}
+pub fn set_eval_fuel(n: u64) {
+    EVAL_FUEL.with(|f| f.set(n));
 }
 
 /// Run a closure on a fresh OS thread (fresh thread-local syntax table) with a large stack.
